@@ -4,8 +4,23 @@
    primitives, split on every condition, and close the leaves by computation / linear arithmetic.  The fallback lets a
    rewrite that does not change behaviour (reordered reads, a renamed temporary, an equivalent comparison) keep the tie. *)
 From Coq Require Import ZifyBool.
-From FB Require Import Sem.Base Sem.Lemmas Model.Fb Model.Adapters.
+From FB Require Import Sem.Base Sem.Lemmas Sem.ReadBuf Model.Fb Model.Adapters Facets.Fb.
 Open Scope Z_scope.
+
+(* for n in a..b with different (but pointwise equal) bodies *)
+Lemma for_range_n_ext {S R} (b1 b2 : Z -> M S (option R)) : (forall i s, b1 i s = b2 i s) ->
+  forall n i s, for_range_n n i b1 s = for_range_n n i b2 s.
+Proof.
+  intros H. induction n as [|n IH]; intros i s; [reflexivity|].
+  cbn [for_range_n]. unfold bind. rewrite H. destruct (b2 i s) as [[v|] s'|s']; try reflexivity. apply IH.
+Qed.
+Lemma for_range_ext {S R} (b1 b2 : Z -> M S (option R)) lo hi s : (forall i s, b1 i s = b2 i s) ->
+  for_range lo hi b1 s = for_range lo hi b2 s.
+Proof. intros H. unfold for_range. apply for_range_n_ext. exact H. Qed.
+
+(* linear arithmetic that also knows what the wrapping of release builds is *)
+Ltac Zify.zify_post_hook ::= Z.div_mod_to_equations.
+Ltac wrap_lia := unfold wrap64, usize_max in *; lia.
 
 Ltac gen_split1 :=
   match goal with
@@ -26,11 +41,51 @@ Ltac gen_split1 :=
 Ltac gen_leaf_n n :=
   lazymatch n with
   | O => fail
-  | S ?m => solve [ reflexivity | exfalso; lia | lia | congruence | progress f_equal; gen_leaf_n m ]
+  | S ?m => solve [ reflexivity | exfalso; lia | lia | congruence | exfalso; wrap_lia | wrap_lia | progress f_equal; gen_leaf_n m ]
   end.
 Ltac gen_leaf := gen_leaf_n 6%nat.
 
+(* when both orientations of a commutative operation occur, keep one: the two sides of an equality often differ only there,
+   and the conditions / collaborator calls built from them must be recognised as the same before they are split on *)
+Ltac norm_comm :=
+  repeat match goal with
+  | |- context [Z.add ?a ?b] => lazymatch goal with |- context [Z.add b a] => tryif constr_eq a b then fail else rewrite (Z.add_comm b a) end
+  | |- context [Z.mul ?a ?b] => lazymatch goal with |- context [Z.mul b a] => tryif constr_eq a b then fail else rewrite (Z.mul_comm b a) end
+  | |- context [Z.min ?a ?b] => lazymatch goal with |- context [Z.min b a] => tryif constr_eq a b then fail else rewrite (Z.min_comm b a) end
+  | |- context [Z.max ?a ?b] => lazymatch goal with |- context [Z.max b a] => tryif constr_eq a b then fail else rewrite (Z.max_comm b a) end
+  | |- context [Z.eqb ?a ?b] => lazymatch goal with |- context [Z.eqb b a] => tryif constr_eq a b then fail else rewrite (Z.eqb_sym b a) end
+  | |- context [andb ?a ?b] => lazymatch goal with |- context [andb b a] => tryif constr_eq a b then fail else rewrite (Bool.andb_comm b a) end
+  | |- context [orb ?a ?b] => lazymatch goal with |- context [orb b a] => tryif constr_eq a b then fail else rewrite (Bool.orb_comm b a) end
+  end.
+
+(* split on the next condition; a branch whose conditions are contradictory (with each other or with the invariant) is closed
+   at once, so that the tree below it is never explored *)
+Ltac gen_sym_core :=
+  norm_comm;
+  repeat (once gen_split1; try (exfalso; lia); cbv beta iota zeta; norm_comm);
+  gen_leaf.
+
+(* two for-loops over the same range whose bodies differ syntactically: compare the bodies pointwise *)
+Ltac for_ext :=
+  repeat match goal with
+  | |- context [for_range ?lo ?hi ?b1 ?s] =>
+      match goal with
+      | |- context [for_range lo hi ?b2 s] =>
+          tryif constr_eq b1 b2 then fail else
+            (replace (for_range lo hi b1 s) with (for_range lo hi b2 s)
+               by (apply for_range_ext; intros; cbv beta; gen_sym_core))
+      end
+  end.
+
 Ltac gen_sym :=
+  (* the statement may assume the buffer invariant / a well-formed ReadBuf: make those facts available to lia *)
+  repeat match goal with
+         | H : Inv _ (fst ?w) |- _ => destruct w; cbn [fst snd] in H
+         end;
+  repeat match goal with
+         | H : Inv _ ?s |- _ => destruct s; unfold Inv in H; cbn [mem read_index write_index] in H
+         | H : rb_wf ?b |- _ => destruct b; unfold rb_wf in H; cbn [rb_buf rb_filled rb_init] in H
+         end;
   repeat match goal with
          | s : fb |- _ => destruct s
          | w : cw |- _ => destruct w
@@ -40,7 +95,7 @@ Ltac gen_sym :=
   cbv -[Z.add Z.sub Z.mul Z.leb Z.ltb Z.eqb Z.min Z.max Z.modulo Z.div Z.of_nat Z.to_nat Z.le Z.lt
         length firstn skipn app nth repeat usize_max wrap64 zlen slice splice fit andb negb orb
         for_range loop_fuel];
-  repeat (once gen_split1; cbv beta iota zeta);
-  gen_leaf.
+  for_ext;
+  gen_sym_core.
 
 Ltac gen_eq := intros; first [ reflexivity | timeout 120 gen_sym ].
